@@ -360,6 +360,25 @@ func (g *Gen) enterLoop(li *loopInfo, in *State) *State {
 	}
 	for _, k := range sortedKeys(st.ghosts) {
 		v := st.ghosts[k]
+		if strings.HasPrefix(k, "$visited:") {
+			// the set of keys already iterated by a map range: arbitrary at an arbitrary iteration
+			inLoop := false
+			for b := range li.body {
+				for _, in := range b.Instrs {
+					if nx, ok := in.(*ssa.Next); ok {
+						if rg, ok := nx.Iter.(*ssa.Range); ok && "$visited:"+rg.Name() == k {
+							inLoop = true
+						}
+					}
+				}
+			}
+			if inLoop {
+				n := g.fresh("visited")
+				g.declare(n, v.S.SMT())
+				st.ghosts[k] = Val{T: n, S: v.S, G: v.G}
+			}
+			continue
+		}
 		if g.ghostWrittenIn(li, k) {
 			n := g.fresh("gh_" + k)
 			g.declare(n, v.S.SMT())
@@ -566,7 +585,21 @@ func (g *Gen) ghostWrittenIn(li *loopInfo, name string) bool {
 			continue
 		}
 		if r.IsStore {
-			return true
+			for b := range li.body {
+				for _, in := range b.Instrs {
+					if st, ok := in.(*ssa.Store); ok {
+						if fa, ok := st.Addr.(*ssa.FieldAddr); ok {
+							stt := fa.X.Type().Underlying().(*types.Pointer).Elem()
+							tn := types.TypeString(stt, func(p *types.Package) string { return "" })
+							fname := stt.Underlying().(*types.Struct).Field(fa.Field).Name()
+							if r.Pattern == tn+"."+fname || r.Pattern == "."+fname {
+								return true
+							}
+						}
+					}
+				}
+			}
+			continue
 		}
 		for b := range li.body {
 			for _, in := range b.Instrs {
